@@ -139,6 +139,13 @@ Definition signer_of (g : sign_args) (a : skc) : option signer :=
   odo m <- nget (s_tpm a) (fst kc) ;;
   Some (SgKey m (match a_locator g with Some l => l | None => snd kc end)).
 
+(* ---- the histories the specification speaks about: certificates are imported under their key ---------- *)
+Definition wf_op (o : op) : Prop :=
+  match o with
+  | OImportCert kn cn _ => drop2 cn = kn /\ (2 <= length cn)%nat
+  | _ => True
+  end.
+
 (* ---- the defaults invariant -------------------------------------------------------------------- *)
 (* a default, when there is one, is a member of its scope (at most one per scope holds by construction) *)
 Definition default_ok {V} (m : list (name * V)) (d : option name) : bool :=
